@@ -4,6 +4,7 @@ C06 — query functions reflect exactly the edits made.  Reference-model level o
 -/
 import Qsx.Model.Spec
 import Qsx.Proofs.SymtabSound
+import Qsx.Proofs.SymtabIndex
 
 namespace Qsx.Props.C06
 open Qsx.Spec
@@ -92,5 +93,16 @@ example :
     ops.foldl Sym.specStep [] = [some [99], some [100]] ∧
     Qsx.Symtab.lookup (ops.foldl Sym.step (Qsx.Symtab.create 1)) [99] = some 0 := by
   decide +kernel
+
+/-- name → item index (what `QSget_column_index` / `QSget_row_index` answer): after
+`ILLsymboltab_index_reset` with the distinct names of a well-formed table, `getindex` of the j-th
+name is j -/
+theorem symtab_getindex_after_reset {t : Qsx.Symtab.T} (hw : Qsx.Symtab.WF t) (names : List Qsx.Symtab.Name)
+    (hsz : t.ents.size = names.length ∨ t.ents.size = names.length + 1)
+    (hall : ∀ s ∈ names, ∃ k, Qsx.Symtab.lookup t s = some k) (hnd : names.Nodup) :
+    (Qsx.Symtab.indexReset t names).2 = 0 ∧ Qsx.Symtab.WF (Qsx.Symtab.indexReset t names).1 ∧
+    ∀ (j : Nat) s, names[j]? = some s →
+      Qsx.Symtab.getindex (Qsx.Symtab.indexReset t names).1 s = (0, (j : Int)) :=
+  Qsx.Symtab.getindex_after_reset hw names hsz hall hnd
 
 end Qsx.Props.C06
